@@ -218,9 +218,14 @@ def is_subtype(sub, base):
         # return typing_utils.issubtype(sub, base)
     else:
         sub_args, base_args = get_args(sub), get_args(base)
-        # NOTE: FieldInfo of pydantic is not comparable :( so we ignore it
-        # same_ann = list(sub_args)[1:] == list(base_args)[1:]
-        return is_subtype(sub_args[0], base_args[0])  # and same_ann
+        # NOTE: FieldInfo of pydantic is not comparable, so we compare the representation
+        # (it lists all constraints that are set, so different constraints do not pass).
+        # Other annotations are ignored.
+        def field_infos(args):
+            return [repr(a) for a in args[1:] if type(a).__name__ == "FieldInfo"]
+
+        same_constraints = field_infos(sub_args) == field_infos(base_args)
+        return same_constraints and is_subtype(sub_args[0], base_args[0])
 
 
 def is_subtype_of(t: Any) -> Callable[[Any], bool]:
